@@ -162,12 +162,12 @@ def run(ctx):
         k = rnd.randrange(len(lines))
         lines[k] = mutate_line(rnd, lines[k])
         muts.append(lines)
-    raw_traces(ctx, "line-mutations", muts)
+    asmcheck.run_text_suite(ctx, "line-mutations", muts)
     rnds = []
     for _ in range(300000 if thorough else 20000):
         n = rnd.choice([1, 1, 2, 3])
         rnds.append(["".join(rnd.choice(SRC_ALPHABET) for _ in range(rnd.randint(1, 24))) + "\n" for _ in range(n)])
-    raw_traces(ctx, "random-lines", rnds)
+    asmcheck.run_text_suite(ctx, "random-lines", rnds)
     # INCLUDE of a missing file and inclusion cycles of length 1-3 (the other data-dependent recursion)
     from harness.props import c19
     import multiprocessing as mp
